@@ -140,6 +140,23 @@ func FromIPLD[T Tokener](node datamodel.Node) (T, error) {
 		return zero, err
 	}
 
+	// Integers above MaxInt64 (DAG-CBOR carries up to 2^64-1) would silently
+	// wrap around when bound to the int64 fields of the Go model: reject them.
+	if info.tokenPayloadNode.Kind() == datamodel.Kind_Map {
+		it := info.tokenPayloadNode.MapIterator()
+		for !it.Done() {
+			k, v, err := it.Next()
+			if err != nil {
+				return zero, err
+			}
+			if v.Kind() == datamodel.Kind_Int {
+				if _, err := v.AsInt(); err != nil {
+					return zero, fmt.Errorf("field %s: integer out of range: %w", k, err)
+				}
+			}
+		}
+	}
+
 	// Replaces the datamodel.Node in tokenPayloadNode with a
 	// schema.TypedNode so that we can cast it to a *token.Token after
 	// unwrapping it.
